@@ -431,9 +431,7 @@ class AbacusHOD:
                 self.logger.warning(
                     'Warning: galaxy x, y velocity bias randoms not set, using z randoms instead. x, y velocities may be unreliable.'
                 )
-                halo_vel_dev = np.concatenate(
-                    (halo_vel_dev, halo_vel_dev, halo_vel_dev)
-                ).reshape(-1, 3)
+                halo_vel_dev = np.repeat(halo_vel_dev, 3).reshape(-1, 3)
             halo_sigma3d = maskedhalos['sigmav3d_L2com']  # 3d velocity dispersion
             halo_c = (
                 maskedhalos['r98_L2com'] / maskedhalos['r25_L2com']
